@@ -42,7 +42,11 @@ type c22Case struct {
 	Compress bool       `json:"compress,omitempty"`
 	MaxBatch int        `json:"max_batch,omitempty"`
 	Events   []c22Event `json:"events"`
+	Conc     *c22Conc   `json:"conc,omitempty"` // concurrent sub-mode (Events empty)
 }
+
+// one case in c22ConcEvery runs the concurrent sub-mode (see c22_concurrent_test.go)
+const c22ConcEvery = 64
 
 var c22Pow10 = []int64{1, 10, 100, 1000, 10000, 100000, 1000000, 10000000, 100000000, 1000000000}
 
@@ -66,6 +70,11 @@ func genC22(t *rapid.T) c22Case {
 	c.PeerHop = rapid.IntRange(0, 4).Draw(t, "peerhop") == 0
 	c.Compress = rapid.Bool().Draw(t, "compress")
 	c.MaxBatch = rapid.SampledFrom([]int{1, 2, 50}).Draw(t, "maxbatch")
+	if rapid.Uint64().Draw(t, "concurrent")%c22ConcEvery == c22ConcEvery/2+1 {
+		c.Encoding, c.PeerHop = "json-batch", false
+		c.Conc = genC22Conc(t)
+		return c
+	}
 	evGen := rapid.Custom(func(t *rapid.T) c22Event {
 		var e c22Event
 		e.Sec = wvGenSec(t)
@@ -234,6 +243,10 @@ func execC22(c c22Case) vkit.Result {
 	rig.caseMu.Lock()
 	defer rig.caseMu.Unlock()
 
+	if c.Conc != nil {
+		execC22Conc(rig, c, &res)
+		return res
+	}
 	carrier := map[string]string{"json-event": "header/json-event", "msgpack-event": "header/msgpack-event",
 		"json-batch": "batch-time/json-batch", "msgpack-batch": "batch-time/msgpack-batch"}[c.Encoding]
 	res.Class("enc=" + c.Encoding)
